@@ -107,9 +107,20 @@ fn sub_matrix<B: Clone>(bin: &Option<Array2<B>>, idx: &[usize]) -> Option<Array2
     bin.as_ref().map(|b| Array2::from_shape_fn((idx.len(), idx.len()), |(i, j)| b[[idx[i], idx[j]]].clone()))
 }
 
-fn states() -> Vec<(f64, f64)> {
-    // (T/Tref, eta)
-    vec![(0.7, 0.6), (1.2, 0.2), (2.0, 1e-3)]
+fn states(tier: Tier) -> Vec<(f64, f64)> {
+    // (T/Tref, eta); the thorough product contains the three quick states
+    match tier {
+        Tier::Quick => vec![(0.7, 0.6), (1.2, 0.2), (2.0, 1e-3)],
+        Tier::Thorough => {
+            let mut v = vec![];
+            for t in [0.5, 0.7, 0.9, 1.2, 2.0, 3.0] {
+                for e in [1e-6, 1e-3, 0.05, 0.2, 0.4, 0.6, 0.85] {
+                    v.push((t, e));
+                }
+            }
+            v
+        }
+    }
 }
 
 fn family_jobs<P: Parameter + 'static>(f: Family<P>, tier: Tier, jobs: &mut Vec<Job>)
@@ -153,7 +164,7 @@ where
                 for (k, &i) in p.iter().enumerate() {
                     pos[i] = Some(k);
                 }
-                for (tf, eta) in states() {
+                for (tf, eta) in states(tier) {
                     let v = 1.0 / (rho(&f.x) * eta);
                     let pa = props(&a, f.tref * tf, v, &f.x);
                     let pb = props(&b, f.tref * tf, v, &xb);
@@ -181,7 +192,7 @@ where
                     xb.insert(pos, 0.0);
                     let xb = Array1::from_vec(xb);
                     let map: Vec<Option<usize>> = (0..n).map(|i| Some(if i >= pos { i + 1 } else { i })).collect();
-                    for (tf, eta) in states() {
+                    for (tf, eta) in states(tier) {
                         let v = 1.0 / (rho(&f.x) * eta);
                         let pa = props(&a, f.tref * tf, v, &f.x);
                         let pb = props(&b, f.tref * tf, v, &xb);
@@ -207,7 +218,7 @@ where
                         xb.push(f.x[k] * (1.0 - ratio));
                         let xb = Array1::from_vec(xb);
                         let map: Vec<Option<usize>> = (0..n).map(Some).collect();
-                        for (tf, eta) in states() {
+                        for (tf, eta) in states(tier) {
                             let v = 1.0 / (rho(&f.x) * eta);
                             let pa = props(&a, f.tref * tf, v, &f.x);
                             let pb = props(&b, f.tref * tf, v, &xb);
@@ -252,7 +263,7 @@ where
                     rec.check("subset", "max_density", (r1 - r2).abs() / (1e-12 * r2), true, || format!("max_density of subset {r1:e} vs directly built model {r2:e} (options dropped?)"));
                     rec.check("subset", "components", if sub.components() == idx.len() { 0.0 } else { 2.0 }, true, || "wrong component count".into());
                     let ident = |name: &str| Some(name.to_string());
-                    for (tf, eta) in states() {
+                    for (tf, eta) in states(tier) {
                         let v = 1.0 / (r2 * eta);
                         let pa = props(&sub, f.tref * tf, v, &xs);
                         let pb = props(&direct, f.tref * tf, v, &xs);
@@ -520,7 +531,7 @@ pub fn run(ctx: &mut Ctx) {
                         pos[i] = Some(k);
                     }
                     let rho = a.max_density(Some(&Moles::from_reduced(x.clone()))).unwrap().to_reduced();
-                    for (tf, eta) in states() {
+                    for (tf, eta) in states(tier) {
                         let pa = props(&a, 500.0 * tf, 1.0 / (rho * eta), &x);
                         let pb = props(&b, 500.0 * tf, 1.0 / (rho * eta), &xb);
                         compare(rec, "permutation", &pa, &pb, &rename_with(pos.clone()), 1e-10);
@@ -543,7 +554,7 @@ pub fn run(ctx: &mut Ctx) {
                     let m = Moles::from_reduced(xs.clone());
                     let (r1, r2) = (sub.max_density(Some(&m)).unwrap().to_reduced(), direct.max_density(Some(&m)).unwrap().to_reduced());
                     rec.check("subset", "max_density", (r1 - r2).abs() / (1e-11 * r2), true, || format!("max_density {r1:e} vs {r2:e}"));
-                    for (tf, eta) in states() {
+                    for (tf, eta) in states(tier) {
                         let pa = props(&sub, 500.0 * tf, 1.0 / (r2 * eta), &xs);
                         let pb = props(&direct, 500.0 * tf, 1.0 / (r2 * eta), &xs);
                         compare(rec, "subset", &pa, &pb, &|s: &str| Some(s.to_string()), 1e-10);
@@ -554,7 +565,7 @@ pub fn run(ctx: &mut Ctx) {
     }
     let _ = (pfile(""), IdentifierOption::Name);
     let _: Option<feos::gc_pcsaft::GcPcSaftEosParameters> = None::<feos::gc_pcsaft::GcPcSaftEosParameters>.map(|p| p.subset(&[0]));
-    ctx.rule = format!("for every model family (PR, PC-SAFT incl. k_ij / association overrides / polar, PC-SAFT functional, SAFT-VR Mie, SAFT-VRQ Mie, PeTS, uv-theory, ePC-SAFT, gc-PC-SAFT): all n! permutations (records, binary matrix and moles together), an extra zero-mole component at every position, every component split into two identical ones (ratios 0.5, 0.1), every ordered subset of indices through Components::subset with default and with non-default option structs, pure-component helpers (vapor_pressure, vle_pure_comps, critical_point_pure, ln_phi_pure_liquid); each on {} states; oracle: differential (relabelled model vs original / subset vs model built directly from those records with the same options), band 1e-10 + 1e-11 ideal-gas floor; jobs = {}", states().len(), jobs.len());
+    ctx.rule = format!("for every model family (PR, PC-SAFT incl. k_ij / association overrides / polar, PC-SAFT functional, SAFT-VR Mie, SAFT-VRQ Mie, PeTS, uv-theory, ePC-SAFT, gc-PC-SAFT): all n! permutations (records, binary matrix and moles together), an extra zero-mole component at every position, every component split into two identical ones (ratios 0.5, 0.1), every ordered subset of indices through Components::subset with default and with non-default option structs, pure-component helpers (vapor_pressure, vle_pure_comps, critical_point_pure, ln_phi_pure_liquid); each on {} states; oracle: differential (relabelled model vs original / subset vs model built directly from those records with the same options), band 1e-10 + 1e-11 ideal-gas floor; jobs = {}", states(tier).len(), jobs.len());
     ctx.run(&jobs, |j| j.0.clone(), |j, rec| (j.1)(rec));
     ctx.assume("component counts 1..4; three states per family");
 }
